@@ -1,7 +1,9 @@
-(* Packet/SigProofs.v — lemmas for C12 (signature coverage, parameters digest, validators). *)
-From Packet Require Import Model Spec.
+(* Packet/SigProofs.v — C12: what the signer signed is what the parser returns as covered; parameters digest;
+   shipped signers validate; tampering that keeps the packet well formed changes what the validator sees. *)
+From Packet Require Import Model Spec ReadersProofs EncProofs DecGeneric DecProofs DecData DecInterest EncData EncInterest Roundtrip GenSigners.
 From Coq Require Import ZifyBool ZifyN ZifyNat.
 Open Scope N_scope.
+Arguments ROk {A}. Arguments RErr {A}. Arguments RPanic {A}. Arguments RUnmodelled {A}.
 
 Lemma check_interest_bad_digest (sha256 : bytes -> bytes) i cx nm c a :
   i_name i = Some (nm ++ [c]) -> i_app i = Some a ->
@@ -10,3 +12,253 @@ Proof.
   intros Hn Ha Hd. unfold check_interest. rewrite Hn, Ha. rewrite rev_app_distr. cbn [rev app].
   destruct (i_sv i); (apply andb_false_iff; right; apply not_true_is_false; intros H; apply bytes_eqb_spec in H; congruence).
 Qed.
+
+(* ---------------------------------------------------------------- the parameters digest is the last name component *)
+(* the specification's digest region (Spec.params_digest_region, located on the raw bytes with tl_dec only) of an encoded
+   Interest is the parameters element and everything after it *)
+Lemma tl_dec_elem (e : elem) rest : elem_wf e ->
+  tl_dec (enc_elem e ++ rest) = Some (fst e, tl_enc (N.of_nat (length (snd e))) ++ snd e ++ rest).
+Proof. intros [Ht _]. unfold enc_elem. rewrite <- !app_assoc. apply tl_dec_enc. exact Ht. Qed.
+
+Lemma find_params_skip es : forall fuel tail, Forall elem_wf es -> Forall (fun e : elem => fst e <> 36) es ->
+  (length es < fuel)%nat -> find_params fuel (enc_elems es ++ tail) = find_params (fuel - length es) tail.
+Proof.
+  induction es as [|e es IH]; intros fuel tail Hwf Hne Hf.
+  - simpl. rewrite Nat.sub_0_r. reflexivity.
+  - inversion Hwf as [|? ? He Hwf']; subst. inversion Hne as [|? ? Hn Hne']; subst.
+    rewrite enc_elems_cons, <- app_assoc. cbn [length] in Hf.
+    destruct fuel as [|fuel]; [lia|]. cbn [find_params].
+    rewrite tl_dec_elem by exact He. replace (fst e =? 36) with false by lia.
+    destruct He as [Ht Hl]. rewrite tl_dec_enc by (unfold two64; lia).
+    rewrite !app_length. replace (N.of_nat (length (snd e) + (length (enc_elems es) + length tail)) <? N.of_nat (length (snd e))) with false by lia.
+    rewrite Nat2N.id. rewrite skipn_app_ge by lia. rewrite Nat.sub_diag. cbn [skipn].
+    rewrite IH by (assumption || lia). reflexivity.
+Qed.
+
+Lemma find_params_hit (e : elem) rest fuel : fst e = 36 -> elem_wf e -> (0 < fuel)%nat ->
+  find_params fuel (enc_elem e ++ rest) = Some (enc_elem e ++ rest).
+Proof.
+  intros H36 He Hf. destruct fuel; [lia|]. cbn [find_params]. rewrite tl_dec_elem by exact He. rewrite H36. reflexivity.
+Qed.
+
+Lemma head_no_params cbp mbf fh nonce life hop : Forall (fun e : elem => fst e <> 36) (int_head_elems cbp mbf fh nonce life hop).
+Proof.
+  unfold int_head_elems, bel, oel. repeat (apply Forall_app; split);
+    repeat match goal with |- context[match ?x with _ => _ end] => destruct x end; repeat constructor; cbn; lia.
+Qed.
+
+Theorem params_region_is_tail n cbp mbf fh nonce life hop c si sv :
+  let V := enc_elems (int_elems n cbp mbf fh nonce life hop (Some c) si sv) in
+  (N.of_nat (length (enc_elem (5, V))) < big)%N ->
+  params_digest_region (enc_elem (5, V)) = Some (enc_elems (int_tail_elems (Some c) si sv)).
+Proof.
+  intros V0 Hb. assert (HV0 : V0 = enc_elems (int_elems n cbp mbf fh nonce life hop (Some c) si sv)) by reflexivity. clearbody V0.
+  assert (He : elem_wf (5, V0)).
+  { split; [cbn; unfold two64; lia|]. cbn [snd]. rewrite enc_elem_length in Hb. cbn [snd] in Hb. lia. }
+  unfold params_digest_region. rewrite <- (app_nil_r (enc_elem (5, V0))). rewrite tl_dec_elem by exact He. cbn [fst snd].
+  change (5 =? 5) with true. cbv iota. destruct He as [_ Hl]. cbn [snd] in Hl. rewrite tl_dec_enc by (unfold two64; lia).
+  rewrite app_nil_r, N.eqb_refl.
+  assert (Hwf : Forall elem_wf (int_elems n cbp mbf fh nonce life hop (Some c) si sv)).
+  { apply elems_wf; [apply int_elems_types|rewrite <- HV0; lia]. }
+  subst V0. rewrite int_elems_split in *. rewrite enc_elems_app in *. apply Forall_app in Hwf as [Hw1 Hw2].
+  set (P := int_pre n cbp mbf fh nonce life hop) in *. set (T := int_tail_elems (Some c) si sv) in *.
+  assert (Hlen : (2 * length P <= length (enc_elems P))%nat).
+  { clear. induction P as [|e P IH]; [simpl; lia|]. rewrite enc_elems_cons, app_length. pose proof (enc_elem_ge2 e). simpl length. lia. }
+  rewrite find_params_skip; [| exact Hw1 | | rewrite app_length; lia].
+  - unfold T, int_tail_elems. cbn [oel app]. rewrite enc_elems_cons.
+    inversion Hw2; subst. apply find_params_hit; [reflexivity|assumption|].
+    rewrite app_length. unfold elem, bytes, byte in *. lia.
+  - unfold P, int_pre. constructor; [cbn; lia|apply head_no_params].
+Qed.
+
+(* ---------------------------------------------------------------- the encoding of the signed portion is injective *)
+Lemma data_elems_none n m c si : enc_elems (data_elems n m c si None) = enc_elems (data_pre n m c si).
+Proof. rewrite data_elems_pre. cbn [oel]. rewrite app_nil_r. reflexivity. Qed.
+
+Lemma data_pre_inj n m c si n' m' c' si' :
+  name_ok n -> meta_wf m -> opt_si_wf si -> name_ok n' -> meta_wf m' -> opt_si_wf si' ->
+  (blen (enc_elems (data_pre n m c si)) + 10 < big) ->
+  enc_elems (data_pre n m c si) = enc_elems (data_pre n' m' c' si') -> (n, m, c, si) = (n', m', c', si').
+Proof.
+  intros Hn Hm Hs Hn' Hm' Hs' Hsz Heq.
+  set (B := enc_elem (6, enc_elems (data_elems n m c si None))).
+  assert (HB : B = enc_elem (6, enc_elems (data_elems n' m' c' si' None))) by (unfold B; rewrite !data_elems_none, Heq; reflexivity).
+  assert (Hb : (N.of_nat (length B) < big)%N) by (unfold B; apply packet_size; rewrite data_elems_none; exact Hsz).
+  destruct (read_data_ok (BR B 0) n m c si None) as (d & cov & E & Ho & _); [apply view_br; simpl; lia|assumption..|].
+  assert (Hb' : (N.of_nat (length (enc_elem (6, enc_elems (data_elems n' m' c' si' None)))) < big)%N) by (rewrite <- HB; exact Hb).
+  destruct (read_data_ok (BR B 0) n' m' c' si' None) as (d' & cov' & E' & Ho' & _);
+    [rewrite HB; apply view_br; simpl; lia|assumption..|].
+  rewrite E in E'. inversion E'; subst d'. rewrite Ho in Ho'. inversion Ho'. reflexivity.
+Qed.
+
+(* C12, tampering (proved part): any modification of the signed portion or of the signature value that leaves a
+   well-formed Data (in particular: flipping bits of a value octet) is decoded, and the validator is then run on a
+   covered-bytes / signature pair different from the one that was signed. *)
+Theorem data_tamper_changes_validator_input n m c si sv n' m' c' si' sv' :
+  name_ok n -> meta_wf m -> opt_si_wf si -> name_ok n' -> meta_wf m' -> opt_si_wf si' ->
+  (blen (enc_elems (data_pre n m c si)) + 10 < big) ->
+  (n, m, c, si, sv) <> (n', m', c', si', sv') ->
+  forall r, View r (enc_elem (6, enc_elems (data_elems n' m' c' si' (Some sv')))) 0 ->
+    (N.of_nat (length (enc_elem (6, enc_elems (data_elems n' m' c' si' (Some sv'))))) < big)%N ->
+    exists d' cov', read_data r = ROk d' cov' /\
+      (concat cov' <> enc_elems (data_pre n m c si) \/ do_sv (obs_data d') <> Some sv).
+Proof.
+  intros Hn Hm Hs Hn' Hm' Hs' Hsz Hne r V Hb.
+  destruct (read_data_ok r n' m' c' si' (Some sv') V Hn' Hm' Hs' Hb) as (d' & cov' & E & Ho & Hc).
+  exists d', cov'. split; [exact E|]. rewrite Hc, Ho. cbn [do_sv].
+  destruct (list_eq_dec N.eq_dec sv sv') as [<-|Hsv]; [|right; congruence].
+  left. intros Heq. apply Hne. symmetry in Heq.
+  pose proof (data_pre_inj n m c si n' m' c' si' Hn Hm Hs Hn' Hm' Hs' Hsz Heq) as Hinj. inversion Hinj; subst. reflexivity.
+Qed.
+
+(* ---------------------------------------------------------------- shipped signers *)
+Lemma shipped_types_match : forallb (fun r => (sf_type r =? sf_vtype r)%Z) shipped_signers = true.
+Proof. vm_compute. reflexivity. Qed.
+
+Lemma sig_type_of_data sg si est : data_siginfo sg = Ok (si, est) -> forall s, sig_active sg = Some s ->
+  (0 <= sg_type s < two64z)%Z -> sig_type_of si = sg_type s.
+Proof.
+  unfold data_siginfo. intros H s Hs Ht. rewrite Hs in H.
+  destruct (sg_nonce s), (sg_seq s), (sg_time s); try discriminate.
+  destruct (sg_nb s), (sg_na s); try discriminate; inversion H; subst; unfold sig_type_of; cbn [si_type];
+    unfold uint64_of; rewrite Z.mod_small by (unfold two64z in *; lia); lia.
+Qed.
+
+(* C12: for every shipped signer (a row of the table translated from std/security; its announced type equals the type its
+   validator insists on) a Data built with a signer announcing that type decodes to a covered range and a signature value
+   the validator accepts — for any verification predicate `chk` that accepts what the signing function `sgn` produces. *)
+Theorem shipped_data_validates : forall row, In row shipped_signers ->
+  forall (chk : bytes -> bytes -> bool) (sgn : bytes -> bytes), (forall msg, chk msg (sgn msg) = true) ->
+  forall nm cfg content sg s si est e,
+    sig_active sg = Some s -> sg_type s = sf_type row -> (0 <= sg_type s < two64z)%Z -> 0 < est ->
+    data_siginfo sg = Ok (si, est) -> name_ok nm -> meta_wf (meta_of cfg) -> signer_ok sg -> data_fits nm cfg content si est ->
+    make_data (fun cov => Some (sgn (concat cov))) nm cfg content sg = Ok e ->
+    forall r, View r (concat (e_wire e)) 0 ->
+      exists d cov sv, read_data r = ROk d cov /\ do_sv (obs_data d) = Some sv /\
+        ((sig_type_of (do_si (obs_data d)) =? sf_vtype row)%Z && chk (concat cov) sv)%bool = true.
+Proof.
+  intros row Hin chk sgn Hchk nm cfg content sg s si est e Hact Hty Htr Hest Hsi Hn Hm Hsg Hfit Hmk r V.
+  destruct (data_roundtrip_thm _ nm cfg content sg si est e Hsi Hn Hm Hsg Hfit Hmk) as (svo & _ & Hs1 & _ & Hr).
+  destruct (Hs1 Hest) as (Hsign & sv & -> & _). inversion Hsign as [Hsv].
+  destruct (Hr r V) as (d & cov & E & Ho & Hc). exists d, cov, sv.
+  split; [exact E|]. rewrite Ho. unfold expected_data. cbn [do_sv do_si]. split; [reflexivity|].
+  unfold data_si_of. rewrite Hsi.
+  rewrite (sig_type_of_data sg si est Hsi s Hact Htr), Hty.
+  pose proof shipped_types_match as Hm'. rewrite forallb_forall in Hm'. rewrite (Hm' row Hin). cbn [andb].
+  rewrite Hc, <- Hsv. apply Hchk.
+Qed.
+
+Lemma sig_type_of_int sg si est : int_siginfo sg true = Ok (si, est) -> forall s, sig_active sg = Some s ->
+  (0 <= sg_type s < two64z)%Z -> sig_type_of si = sg_type s.
+Proof.
+  unfold int_siginfo. intros H s Hs Ht. rewrite Hs in H. cbn [negb] in H.
+  destruct (sg_nb s), (sg_na s); try discriminate.
+  destruct (sg_type s =? 0)%Z; [|destruct (sg_key s); [|discriminate]]; destruct (253 <=? sg_est s); try discriminate;
+    inversion H; subst; unfold sig_type_of; cbn [si_type]; unfold uint64_of; rewrite Z.mod_small by (unfold two64z in *; lia); lia.
+Qed.
+
+Section InterestSig.
+Variable sha256 : bytes -> bytes.
+Hypothesis sha256_len : forall x, length (sha256 x) = 32%nat.
+
+Theorem shipped_interest_validates : forall row, In row shipped_signers ->
+  forall (chk : bytes -> bytes -> bool) (sgn : bytes -> bytes), (forall msg, chk msg (sgn msg) = true) ->
+  forall nm cfg a sg s si est e,
+    sig_active sg = Some s -> sg_type s = sf_type row -> (0 <= sg_type s < two64z)%Z -> 0 < est ->
+    int_siginfo sg true = Ok (si, est) -> name_ok (strip_digest nm) -> iconfig_ok cfg -> signer_ok sg -> signer_int_ok sg ->
+    int_fits (strip_digest nm ++ [mkc 2 zeros32]) cfg (Some a) si est ->
+    make_interest sha256 (fun cov => Some (sgn (concat cov))) nm cfg (Some a) sg = Ok e ->
+    forall r, View r (concat (e_wire e)) 0 ->
+      exists i cov sv, read_interest sha256 r = ROk i cov /\ io_sv (obs_int i) = Some sv /\
+        ((sig_type_of (io_si (obs_int i)) =? sf_vtype row)%Z && chk (concat cov) sv)%bool = true.
+Proof.
+  intros row Hin chk sgn Hchk nm cfg a sg s si est e Hact Hty Htr Hest Hsi Hn Hcfg Hsg Hsgi Hfit Hmk r V.
+  destruct (interest_roundtrip_thm sha256 sha256_len _ nm cfg (Some a) sg si est e Hsi Hn ltac:(discriminate) Hcfg Hsg Hsgi Hfit Hmk)
+    as (svo & _ & Hs1 & _ & _ & Hr).
+  destruct (Hs1 Hest) as (Hsign & sv & -> & _). inversion Hsign as [Hsv].
+  destruct (Hr r V) as (i & cov & E & Ho & Hc). exists i, cov, sv.
+  split; [exact E|]. rewrite Ho. unfold expected_int. cbn [io_sv io_si]. split; [reflexivity|].
+  unfold int_si_of. rewrite Hsi.
+  rewrite (sig_type_of_int sg si est Hsi s Hact Htr), Hty.
+  pose proof shipped_types_match as Hm'. rewrite forallb_forall in Hm'. rewrite (Hm' row Hin). cbn [andb].
+  rewrite (Hc Hest), <- Hsv. apply Hchk.
+Qed.
+End InterestSig.
+
+(* ---------------------------------------------------------------- Interest: a changed parameters region changes the digest input *)
+Lemma int_tail_inj c si sv c' si' sv' : opt_si_wf si -> opt_si_wf si' ->
+  (blen (enc_elems (int_tail_elems (Some c) si sv)) + 100 < big) ->
+  enc_elems (int_tail_elems (Some c) si sv) = enc_elems (int_tail_elems (Some c') si' sv') -> (c, si, sv) = (c', si', sv').
+Proof.
+  intros Hs Hs' Hsz Heq.
+  (* embed both tails after the same one-component name and decode *)
+  set (n0 := [mkc 8 []]).
+  assert (Hn0 : name_ok n0) by (repeat constructor; cbn; unfold two64; lia).
+  assert (Hh : head_wf None None None) by (repeat split).
+  set (B := enc_elem (5, enc_elems (int_elems n0 false false None None None None (Some c) si sv))).
+  assert (HB : B = enc_elem (5, enc_elems (int_elems n0 false false None None None None (Some c') si' sv'))).
+  { unfold B. rewrite !int_elems_split, !enc_elems_app, Heq. reflexivity. }
+  assert (Hb : (N.of_nat (length B) < big)%N).
+  { unfold B. apply packet_size_t; [lia|]. rewrite int_elems_split, enc_elems_app, blen_app.
+    replace (blen (enc_elems (int_pre n0 false false None None None None))) with 4 by reflexivity. lia. }
+  destruct (parse_packet_interest (BR B 0) n0 false false None None None None (Some c) si sv) as (i & cx & E & Ho & _);
+    [apply view_br; simpl; lia|assumption|assumption|split; [discriminate|assumption]|exact Hb|].
+  assert (Hb' : (N.of_nat (length (enc_elem (5, enc_elems (int_elems n0 false false None None None None (Some c') si' sv')))) < big)%N) by (rewrite <- HB; exact Hb).
+  destruct (parse_packet_interest (BR B 0) n0 false false None None None None (Some c') si' sv') as (i' & cx' & E' & Ho' & _);
+    [rewrite HB; apply view_br; simpl; lia|assumption|assumption|split; [discriminate|assumption]|exact Hb'|].
+  rewrite E in E'. inversion E'; subst i'. rewrite Ho in Ho'. inversion Ho'. reflexivity.
+Qed.
+
+(* ---------------------------------------------------------------- covered bytes agree *)
+Lemma sig_covered_agree_data_thm sign nm cfg content sg si est e :
+  data_siginfo sg = Ok (si, est) -> name_ok nm -> meta_wf (meta_of cfg) -> signer_ok sg -> data_fits nm cfg content si est ->
+  make_data sign nm cfg content sg = Ok e ->
+  forall r, View r (concat (e_wire e)) 0 -> exists d cov, read_data r = ROk d cov /\ concat cov = concat (e_cov e).
+Proof.
+  intros Hsi Hn Hm Hsg Hfit Hmk r V.
+  destruct (data_roundtrip_thm sign nm cfg content sg si est e Hsi Hn Hm Hsg Hfit Hmk) as (sv & _ & _ & _ & Hr).
+  destruct (Hr r V) as (d & cov & E & _ & Hc). eauto.
+Qed.
+
+Section DigestLast.
+Variable sha256 : bytes -> bytes.
+Hypothesis sha256_len : forall x, length (sha256 x) = 32%nat.
+Variable sign : list bytes -> option bytes.
+
+Lemma sig_covered_agree_int_thm nm cfg app sg si est e :
+  let need := match app with Some _ => true | None => false end in
+  let pre := strip_digest nm in
+  let nm1 := if need then pre ++ [mkc 2 zeros32] else pre in
+  int_siginfo sg need = Ok (si, est) -> 0 < est -> name_ok pre -> (app = None -> existsb is_digest_comp pre = false) ->
+  iconfig_ok cfg -> signer_ok sg -> signer_int_ok sg -> int_fits nm1 cfg app si est ->
+  make_interest sha256 sign nm cfg app sg = Ok e ->
+  forall r, View r (concat (e_wire e)) 0 -> exists i cov, read_interest sha256 r = ROk i cov /\ concat cov = concat (e_cov e).
+Proof.
+  intros need pre nm1 Hsi Hest Hn Hnod Hcfg Hsg Hsgi Hfit Hmk r V.
+  destruct (interest_roundtrip_thm sha256 sha256_len sign nm cfg app sg si est e Hsi Hn Hnod Hcfg Hsg Hsgi Hfit Hmk)
+    as (svo & _ & _ & _ & _ & Hr).
+  destruct (Hr r V) as (i & cov & E & _ & Hc). eauto.
+Qed.
+
+(* An Interest built with parameters carries, as its last name component, the SHA-256 of the region the NDN packet format
+   prescribes (Spec.params_digest_region: the ApplicationParameters element to the end of the Interest, located on the
+   encoded bytes). *)
+Lemma digest_is_last_component_thm nm cfg a sg si est e :
+  let pre := strip_digest nm in
+  int_siginfo sg true = Ok (si, est) -> name_ok pre -> iconfig_ok cfg -> signer_ok sg -> signer_int_ok sg ->
+  int_fits (pre ++ [mkc 2 zeros32]) cfg (Some a) si est ->
+  make_interest sha256 sign nm cfg (Some a) sg = Ok e ->
+  exists region, params_digest_region (concat (e_wire e)) = Some region /\ e_final e = pre ++ [mkc 2 (sha256 region)].
+Proof.
+  intros pre Hsi Hn Hcfg Hsg Hsgi Hfit Hmk.
+  destruct (interest_roundtrip_thm sha256 sha256_len sign nm cfg (Some a) sg si est e Hsi Hn ltac:(discriminate) Hcfg Hsg Hsgi Hfit Hmk)
+    as (svo & Hs0 & Hs1 & Hfin & HW & Hr).
+  exists (enc_elems (int_tail_elems (option_map (@concat N) (Some a)) si svo)). split; [|exact Hfin].
+  rewrite HW. unfold IV. cbn [option_map].
+  apply params_region_is_tail.
+  fold (IV (e_final e) cfg (Some a) si svo). rewrite Hfin. cbn [option_map].
+  apply (IV_size sha256 sha256_len sign (strip_digest nm) cfg a si est svo); try assumption; [apply sha256_len|].
+  intros sv ->. split; [destruct (N.eq_dec est 0) as [E0|E0]; [specialize (Hs0 E0); discriminate|lia]|]. destruct (N.eq_dec est 0) as [E0|E0]; [specialize (Hs0 E0); discriminate|].
+  destruct (Hs1 ltac:(lia)) as (_ & s & Es & Hle). inversion Es; subst. lia.
+Qed.
+End DigestLast.
